@@ -721,6 +721,7 @@ type c11Seg struct {
 }
 
 type c11Big struct {
+	BS      int // block size (0: 64 KiB)
 	Name    string
 	Flavour string // "rand" (high entropy, oracle only) | "rle" (structured, also evaluated by the model)
 	OldBlk  []int  // per old file: number of full blocks
@@ -761,6 +762,9 @@ func c11FreshStruct(r *lib.Rng, n int) []byte {
 }
 
 func (bc *c11Big) build(r *lib.Rng) (olds [][]byte, src []byte) {
+	if bc.BS != 0 {
+		return bc.buildSmallBS(r)
+	}
 	for k := range bc.OldBlk {
 		var f []byte
 		for j := 0; j < bc.OldBlk[k]; j++ {
@@ -796,7 +800,62 @@ func (bc *c11Big) build(r *lib.Rng) (olds [][]byte, src []byte) {
 	return
 }
 
+// small block sizes with sources around the internal buffer size 2*bs + MaxDataOp: OldBlk[0] is
+// the length of the single old file (a few bytes of a 256-letter alphabet, so that some
+// positions of the random source match and most do not), Segs[0].N the source length
+func (bc *c11Big) buildSmallBS(r *lib.Rng) (olds [][]byte, src []byte) {
+	if len(bc.OldBlk) > 0 {
+		olds = append(olds, r.Bytes(bc.OldBlk[0]))
+	}
+	src = r.Bytes(bc.Segs[0].N)
+	if len(olds) > 0 && len(olds[0]) >= bc.BS {
+		// sprinkle copies of old blocks over the source
+		for k := 0; k < 2000; k++ {
+			at := r.Intn(len(src) + 1)
+			b := r.Intn(len(olds[0])/bc.BS) * bc.BS
+			copy(src[min(at, len(src)):], olds[0][b:b+bc.BS])
+		}
+	}
+	return
+}
+
 const c11MiB = 1 << 20
+
+func c11SmallBSCases(r *lib.Rng, tier string) []*c11Big {
+	var out []*c11Big
+	// corpus: input of the fixed defect "index out of range [-1]" (bs 1, source ends exactly where the buffer wraps)
+	out = append(out, &c11Big{BS: 1, Name: "corpus/bs1-wrap-at-eof", Flavour: "rand", Segs: []c11Seg{{Kind: "fresh", N: wsync.MaxDataOp + 2}}, Pref: -1})
+	bss := []int{1, 2, 3, 4, 7, 16, 255, 4096}
+	// boundary sweep: source lengths on and around the buffer size l = 2*bs + MaxDataOp and its
+	// multiples (where the wrap coincides with the end of the source), and around MaxDataOp
+	type bl struct{ bs, ln int }
+	var sweep []bl
+	for _, bs := range bss {
+		l := 2*bs + wsync.MaxDataOp
+		for _, ln := range []int{l - 1, l, l + 1, 2*l - 1, 2 * l, 2*l + 1, wsync.MaxDataOp - 1, wsync.MaxDataOp, wsync.MaxDataOp + 1, wsync.MaxDataOp + bs, wsync.MaxDataOp + 2*bs - 1, 2*l - bs, 2*l - 2*bs} {
+			sweep = append(sweep, bl{bs, ln})
+		}
+	}
+	for i := len(sweep) - 1; i > 0; i-- {
+		j := r.Intn(i + 1)
+		sweep[i], sweep[j] = sweep[j], sweep[i]
+	}
+	n := 4
+	if tier != "quick" {
+		n = len(sweep)
+	}
+	for i := 0; i < n; i++ {
+		bs, ln := sweep[i].bs, sweep[i].ln
+		bc := &c11Big{BS: bs, Name: fmt.Sprintf("smallbs/bs%d/%d", bs, ln), Flavour: "rand", Segs: []c11Seg{{Kind: "fresh", N: ln}}, Pref: -1}
+		if r.Chance(1, 2) {
+			bc.OldBlk = []int{r.Range(1, 3)*bs + r.Intn(bs)}
+			bc.OldTail = []int{0}
+			bc.Pref = int64(r.Range(-1, 0))
+		}
+		out = append(out, bc)
+	}
+	return out
+}
 
 func c11BigCases(r *lib.Rng, tier string) []*c11Big {
 	var out []*c11Big
@@ -886,11 +945,19 @@ func c11BigCases(r *lib.Rng, tier string) []*c11Big {
 }
 
 func c11RunBig(c *Ctx, r *lib.Rng) error {
-	ctx := wsync.NewContext(c11BS)
-	for _, bc := range c11BigCases(r.Fork(), c.Tier) {
+	ctxs := map[int]*wsync.Context{}
+	for _, bc := range append(c11BigCases(r.Fork(), c.Tier), c11SmallBSCases(r.Fork(), c.Tier)...) {
 		cr := r.Fork()
 		olds, src := bc.build(cr)
-		in := &c11Input{bs: c11BS, olds: olds, src: src, pref: bc.Pref}
+		bs := c11BS
+		if bc.BS != 0 {
+			bs = bc.BS
+		}
+		if ctxs[bs] == nil {
+			ctxs[bs] = wsync.NewContext(bs)
+		}
+		ctx := ctxs[bs]
+		in := &c11Input{bs: bs, olds: olds, src: src, pref: bc.Pref}
 		var ops []c11Op
 		oracle := ""
 		cls, msg := lib.WithDeadline(120*time.Second, func() error {
@@ -920,7 +987,7 @@ func c11RunBig(c *Ctx, r *lib.Rng) error {
 		}
 		class := "real/" + strings.SplitN(bc.Name, "/", 2)[0] + "/" + bc.Flavour
 		c.Out.Emit(&lib.Case{Class: class, Nontrivial: len(ops) >= 2,
-			Input: map[string]interface{}{"name": bc.Name, "bs": c11BS, "flavour": bc.Flavour, "oldBlocks": bc.OldBlk, "oldTails": bc.OldTail,
+			Input: map[string]interface{}{"name": bc.Name, "bs": bs, "flavour": bc.Flavour, "oldBlocks": bc.OldBlk, "oldTails": bc.OldTail,
 				"segments": bc.Segs, "srcLen": len(src), "pref": bc.Pref, "srcDigest": lib.Digest(src)},
 			Obs:    map[string]interface{}{"ops": c11OpsJ(ops, false), "dataSizes": sizes},
 			Oracle: oracle, Finding: finding})
